@@ -505,6 +505,43 @@ fn number_format_battery(seed: u64, extra: usize, fail: &mut dyn FnMut(&str, Str
             }
         }
     }
+    // parseInt / parseFloat: numeric strings with trailing text, digit strings of any length, every radix
+    for &y in &ys {
+        let printed = match std::panic::catch_unwind(|| number_to_string(y)) { Ok(t) => t, Err(_) => continue };
+        let lit = js_lit(y);
+        batch.push(("parseFloat".into(), "sig=parseFloat(printed+junk)".into(), format!("String(parseFloat('  {}px') === {})", printed, lit), "true".into()));
+        batch.push(("parseFloat".into(), "sig=parseFloat(-printed)".into(), format!("String(parseFloat('-{}e') === -{})", printed.replace("e+", "e").replace('e', "E"), lit), "true".into()));
+        if y == y.trunc() && y < 1e300 {
+            for radix in [2u32, 8, 16, 32, 10] {
+                let text = ref_to_radix(y, radix);
+                batch.push(("parseInt".into(), format!("sig=parseInt(radix-{})", if radix == 10 { "10" } else { "power-of-two" }),
+                            format!("String(parseInt('{}', {}) === {})", text, radix, lit), "true".into()));
+            }
+            if y < 9007199254740992.0 {
+                for radix in [3u32, 7, 36] {
+                    batch.push(("parseInt".into(), "sig=parseInt(radix-other,<2^53)".into(),
+                                format!("String(parseInt('-{}zz'.slice(0, -2) + '~', {}) === -{})", ref_to_radix(y, radix), radix, lit), "true".into()));
+                }
+            }
+        }
+    }
+    for (expr, want) in [
+        ("parseFloat('1e')", "1"), ("parseFloat('1e+')", "1"), ("parseFloat('1e-x')", "1"), ("parseFloat('.5')", "0.5"), ("parseFloat('5.')", "5"),
+        ("parseFloat('-.5e-2x')", "-0.005"), ("parseFloat('Infinityx')", "Infinity"), ("parseFloat('-Infinity')", "-Infinity"), ("parseFloat('+Infinity')", "Infinity"),
+        ("parseFloat('infinity')", "NaN"), ("parseFloat('.')", "NaN"), ("parseFloat('.e1')", "NaN"), ("parseFloat('e5')", "NaN"), ("parseFloat('0x10')", "0"),
+        ("parseFloat('1_0')", "1"), ("parseFloat('1.2.3')", "1.2"), ("parseFloat('')", "NaN"), ("parseFloat('9007199254740993')", "9007199254740992"),
+        ("parseFloat('1e1000')", "Infinity"), ("parseFloat('1e-1000')", "0"), ("1 / parseFloat('-0')", "-Infinity"),
+        ("parseInt('0x1f')", "31"), ("parseInt('0X1F', 16)", "31"), ("parseInt('0x1f', 10)", "0"), ("parseInt('0x')", "NaN"), ("parseInt('-0x10')", "-16"),
+        ("parseInt('12px')", "12"), ("parseInt('  -42')", "-42"), ("parseInt('1e3')", "1"), ("parseInt('')", "NaN"), ("parseInt('zz', 36)", "1295"),
+        ("parseInt('12', 2)", "1"), ("parseInt('2', 2)", "NaN"), ("parseInt('10', 37)", "NaN"), ("parseInt('10', 1)", "NaN"), ("parseInt('10', 0)", "10"),
+        ("1 / parseInt('-0')", "-Infinity"), ("parseInt('123456789012345678901234567890')", "1.2345678901234568e+29"),
+        ("parseInt('9007199254740993')", "9007199254740992"), ("parseInt('9007199254740995')", "9007199254740996"),
+        ("parseInt('7fffffffffffffff', 16)", "9223372036854776000"), ("parseInt('ffffffffffffffffffffffffffffffffffff', 16)", "2.2300745198530623e+43"),
+        ("parseInt('1'.repeat(400))", "Infinity"), ("parseInt('1' + '0'.repeat(200), 2) === 2 ** 200", "true"),
+        ("parseInt('1' + '0'.repeat(52) + '1' + '0'.repeat(80) + '1', 2) === 2 ** 134 + 2 ** 82", "true"),
+    ] {
+        batch.push(("parse_prefix_table".into(), format!("sig=table:{}", expr.split('(').next().unwrap_or("")), format!("String({})", expr), want.to_string()));
+    }
     for chunk in batch.chunks(150) {
         let prog = format!("[{}].join('\\u0001')", chunk.iter().map(|c| c.2.clone()).collect::<Vec<_>>().join(", "));
         match eval_str(&prog) {
